@@ -7,9 +7,10 @@ namespace Rain.Loop
 /-! ### piece write -/
 
 /-- The write has completed: no job in flight, no `Writing` flag left. -/
-theorem pwdReset_winv (m : M) (w : WriteJob) (h : WInv m.1) (hw : m.1.writing = some w) :
+theorem pwdReset_winv (m : M) (w w0 : WriteJob) (h : WInv m.1) (hw : m.1.writing = some w0)
+    (hwp : w.piece = w0.piece) (hwg : w.gen = w0.gen) :
     WInv (pwdReset m w).1 ∧ (pwdReset m w).1.writing = none := by
-  refine ⟨⟨h.cfgOK, h.q, ?_, ?_, ?_, ?_, h.bd, h.dd, h.dl, h.al, h.id⟩, rfl⟩
+  refine ⟨⟨h.q, ?_, ?_, ?_, ?_, ?_, h.bd, h.dd, h.dl, h.al, h.id⟩, rfl⟩
   · intro hl i hi
     exfalso
     have hl0 : m.1.loaded = true := hl
@@ -24,7 +25,7 @@ theorem pwdReset_winv (m : M) (w : WriteJob) (h : WInv m.1) (hw : m.1.writing = 
         rw [hw] at hw'; cases hw'
         -- the flag of the job's own piece has just been cleared
         apply hne
-        refine ⟨hp'.symm, ?_⟩
+        refine ⟨hp'.symm.trans hwp.symm, ?_⟩
         have : m.1.wflag.getD i false = true := hi
         cases hlt : decide (i < m.1.wflag.length)
         · have hge : m.1.wflag.length ≤ i := by simpa using hlt
@@ -33,9 +34,15 @@ theorem pwdReset_winv (m : M) (w : WriteJob) (h : WInv m.1) (hw : m.1.writing = 
     · next hg =>
       obtain ⟨w', hw', _, hg'⟩ := h.wf hl0 i hi
       rw [hw] at hw'; cases hw'
-      exact hg hg'
+      exact hg (hwg.trans hg')
   · intro w' hw'; cases hw'
   · intro w' hw'; cases hw'
+  · intro hl
+    have := h.wl hl
+    simp only [pwdReset, onSt_fst]
+    split
+    · simpa [setAt, St.n] using this
+    · exact this
   · intro w' hw'; cases hw'
 
 theorem pwdBan_wframe (m : M) (w : WriteJob) : WFrame m.1 (pwdBan m w).1 := by
@@ -78,19 +85,20 @@ theorem pwdOthers_winv (m : M) (w : WriteJob) (b : List Bool) (h : WInv m.1) (hw
     WInv (pwdOthers (pwdSet (pwdDone m w) w b) w).1 := by
   have hdone : (pwdDone m w).1.done = setAt m.1.done w.piece true := by
     unfold pwdDone
-    simp [hg]
+    simp
   have hbf : (pwdSet (pwdDone m w) w b).1.bf = some (setAt b w.piece true) := by
     unfold pwdSet; dsimp only; split <;> simp
   obtain ⟨hlen, hbits⟩ := h.bd hl hv b hb
   obtain ⟨hsub, hnp⟩ := pwdOthers_dls (pwdSet (pwdDone m w) w b) w
   have hdls0 : ∀ d ∈ (pwdOthers (pwdSet (pwdDone m w) w b) w).1.dls, d ∈ m.1.dls := by
     intro d hd; simpa using hsub d hd
-  refine ⟨by simpa using h.cfgOK, h.q.of_peers (by simp), ?_, ?_, ?_, ?_, ?_, ?_, ?_, ?_, ?_⟩
+  refine ⟨h.q.of_peers (by simp), ?_, ?_, ?_, ?_, ?_, ?_, ?_, ?_, ?_, ?_⟩
   · intro hl' i hi
     obtain ⟨w', hw', _⟩ := h.wf hl i (by simpa using hi)
     rw [hw] at hw'; cases hw'
   · intro w' hw'; simp [hw] at hw'
   · intro w' hw'; simp [hw] at hw'
+  · intro _; simpa [St.n] using h.wl hl
   · intro w' hw'; simp [hw] at hw'
   · intro _ _ b' hb'
     simp only [pwdOthers_bf, hbf, Option.some.injEq] at hb'
@@ -133,23 +141,26 @@ theorem pwdHaves_wframe (m : M) (w : WriteJob) : WFrame m.1 (pwdHaves m w).1 := 
   · exact hx.trans (updateInterested_wframe _ _)
   · simp only [send_fst]; exact hx.trans (updateInterested_wframe _ _)
 
-/-- `handlePieceWriteDone` for the job in flight.  `hcur`: the writer reports success for a good job only
-if the job is current and the pieces are loaded (what `writerRun` guarantees when the job's piece has a
-non-padding section). -/
-theorem handlePieceWriteDone_winv (m : M) (w : WriteJob) (e : Bool) (h : WInv m.1) (l : Life m.1) (c : CompInv m.1)
-    (hw : m.1.writing = some w) (hcur : e = false → w.good = true → w.gen = m.1.gen ∧ m.1.loaded = true) :
+/-- `handlePieceWriteDone` for the job in flight (a stale result is ignored by the handler itself: fix C04-F9). -/
+theorem handlePieceWriteDone_winv' (m : M) (w w0 : WriteJob) (e : Bool) (h : WInv m.1) (l : Life m.1) (c : CompInv m.1)
+    (hw : m.1.writing = some w0) (hwp : w.piece = w0.piece) (hwg : w.gen = w0.gen) :
     WInv (handlePieceWriteDone m w e).1 := by
   rw [handlePieceWriteDone_eq]
-  obtain ⟨h0, hw0⟩ := pwdReset_winv m w h hw
+  obtain ⟨h0, hw0⟩ := pwdReset_winv m w w0 h hw hwp hwg
   dsimp only
   split
   · exact h0.frame (pwdBan_wframe _ _)
-  · next hgood =>
+  split
+  · exact h0
+  · next hst =>
+    simp only [Bool.or_eq_true, ne_eq, decide_eq_true_eq, Bool.not_eq_true', not_or, Decidable.not_not,
+      Bool.not_eq_false] at hst
+    have hg : w.gen = m.1.gen := by simpa using hst.1
+    have hl : m.1.loaded = true := by simpa using hst.2
     split
     · simp only [onSt_fst]; exact stop_winv _ _ h0
-    · next he =>
-      obtain ⟨hg, hl⟩ := hcur (by simpa using he) (by simpa using hgood)
-      obtain ⟨hv, hbit⟩ := h.wc w hw hg hl
+    · obtain ⟨hv, hbit⟩ := h.wc w0 hw (hwg.symm.trans hg) hl
+      rw [← hwp] at hbit
       have hr : m.1.errC = true ∧ m.1.stopAnn = false := by
         cases he' : m.1.errC <;> cases hs : m.1.stopAnn <;> simp
         all_goals
@@ -176,15 +187,38 @@ theorem handlePieceWriteDone_winv (m : M) (w : WriteJob) (e : Bool) (h : WInv m.
         exact pwdOthers_winv (pwdReset m w) w b h0 hw0 (by simpa using hg) (by simpa using hl) (by simpa using hv)
           (by simpa using hb')
 
+theorem handlePieceWriteDone_winv (m : M) (w : WriteJob) (e : Bool) (h : WInv m.1) (l : Life m.1) (c : CompInv m.1)
+    (hw : m.1.writing = some w) : WInv (handlePieceWriteDone m w e).1 :=
+  handlePieceWriteDone_winv' m w w e h l c hw rfl rfl
+
+/-- The job's storage calls have returned; its result is held (`gate writeDone`). -/
+theorem WInv.mark_written {s s' : St} (h : WInv s) (w : WriteJob) (hw : s.writing = some w)
+    (hw' : s'.writing = some { w with written := true }) (f : WFrame s { s' with writing := s.writing }) : WInv s' := by
+  have h1 := h.frame f
+  refine ⟨h1.q, ?_, ?_, ?_, h1.wl, ?_, h1.bd, h1.dd, h1.dl, h1.al, h1.id⟩
+  · intro hl i hi
+    obtain ⟨w0, a, b, c⟩ := h1.wf hl i hi
+    have a' : s.writing = some w0 := a
+    rw [hw] at a'; cases a'
+    exact ⟨_, hw', b, c⟩
+  · intro w0 a
+    rw [hw'] at a; cases a
+    exact h1.wg w hw
+  · intro w0 a
+    rw [hw'] at a; cases a
+    exact h1.wc w hw
+  · intro w0 a
+    rw [hw'] at a; cases a
+    exact h1.wd w hw
+
 theorem writerRun_winv (m : M) (w : WriteJob) (h : WInv m.1) (l : Life m.1) (c : CompInv m.1)
     (hw : m.1.writing = some w) : WInv (writerRun m w).1 := by
-  have hsec := h.wb w hw
   unfold writerRun
   dsimp only
   split
-  · exact handlePieceWriteDone_winv m w false h l c hw (fun _ hg => by simp_all)
+  · exact handlePieceWriteDone_winv m w false h l c hw
   · split
-    · next hnil => exact absurd hnil hsec
+    · exact handlePieceWriteDone_winv' m _ w false h l c hw rfl rfl
     · next sc rest hsecs =>
       have hfr : ∀ x : List String, WInv (onSt m fun s => { s with sto := s.sto ++ x }).1 ∧
           Life (onSt m fun s => { s with sto := s.sto ++ x }).1 ∧ CompInv (onSt m fun s => { s with sto := s.sto ++ x }).1 ∧
@@ -192,34 +226,33 @@ theorem writerRun_winv (m : M) (w : WriteJob) (h : WInv m.1) (l : Life m.1) (c :
         ⟨h.frame (by wframe_eq), l.congr (by lframe), c.of_frame rfl rfl rfl rfl rfl rfl rfl rfl, by simpa using hw⟩
       split
       · obtain ⟨a1, a2, a3, a4⟩ := hfr [s!"writeclosed:{fileName m.1.cfg sc.file}:{sc.off}:{sc.len}"]
-        exact handlePieceWriteDone_winv _ w true a1 a2 a3 a4 (fun hh => by cases hh)
-      · next hstale =>
-        split
+        exact handlePieceWriteDone_winv _ w true a1 a2 a3 a4
+      · split
         · obtain ⟨a1, a2, a3, a4⟩ := hfr [s!"writefail:{fileName m.1.cfg sc.file}:{sc.off}:{sc.len}"]
-          exact handlePieceWriteDone_winv _ w true a1 a2 a3 a4 (fun hh => by cases hh)
-        · apply handlePieceWriteDone_winv _ w false
-          · simp only [onSt_fst]; exact h.frame (by wframe_eq)
-          · simp only [onSt_fst]; exact l.congr (by lframe)
-          · simp only [onSt_fst]; exact c.of_frame rfl rfl rfl rfl rfl rfl rfl rfl
-          · simpa using hw
-          · intro _ _
-            simp only [Bool.or_eq_true, ne_eq, decide_eq_true_eq, Bool.not_eq_true', not_or,
-              Decidable.not_not, Bool.not_eq_false] at hstale
-            simpa using hstale
+          exact handlePieceWriteDone_winv _ w true a1 a2 a3 a4
+        · split
+          · simp only [onSt_fst]
+            exact h.mark_written w hw rfl (by wframe_eq)
+          · apply handlePieceWriteDone_winv _ w false
+            · simp only [onSt_fst]; exact h.frame (by wframe_eq)
+            · simp only [onSt_fst]; exact l.congr (by lframe)
+            · simp only [onSt_fst]; exact c.of_frame rfl rfl rfl rfl rfl rfl rfl rfl
+            · simpa using hw
 
 /-! ### allocation, verification -/
 
 /-- A state in which any write in flight is stale, no `Writing` flag is set and nothing is downloaded. -/
 theorem WInv.of_stale {s s' : St} (h : WInv s) (h1 : s'.cfg = s.cfg) (h3 : s'.writing = s.writing)
     (hg : ∀ w, s'.writing = some w → w.gen < s'.gen)
-    (hwf : s'.loaded = true → ∀ i, s'.wflag.getD i false = false) (hd : s'.dls = []) (hq : QueueOK s')
+    (hwf : s'.loaded = true → ∀ i, s'.wflag.getD i false = false) (hwl : s'.loaded = true → s'.wflag.length = s'.n)
+    (hd : s'.dls = []) (hq : QueueOK s')
     (hbd : s'.loaded = true → s'.verifier = false → ∀ b, s'.bf = some b →
       b.length ≤ s'.done.length ∧ ∀ i, b.getD i false = true → s'.done.getD i false = true)
     (hal : s'.allocator = true → s'.loaded = false) (hid : s'.info = true → s'.idls = []) : WInv s' := by
-  refine ⟨by rw [h1]; exact h.cfgOK, hq, ?_, ?_, ?_, ?_, hbd, ?_, ?_, hal, hid⟩
+  refine ⟨hq, ?_, ?_, ?_, hwl, ?_, hbd, ?_, ?_, hal, hid⟩
   · intro hl i hi; rw [hwf hl i] at hi; cases hi
-  · rw [h3, h1]; exact h.wb
   · intro w hw; exact Nat.le_of_lt (hg w hw)
+  · intro w hw hgen; have := hg w hw; rw [hgen] at this; exact absurd this (Nat.lt_irrefl _)
   · intro w hw hgen; have := hg w hw; rw [hgen] at this; exact absurd this (Nat.lt_irrefl _)
   · rw [hd]; intro d hd'; cases hd'
   · rw [hd]; intro hh; exact absurd rfl hh
@@ -267,6 +300,7 @@ theorem handleAllocationDone_winv (m : M) (ex mi : Bool) (h : WInv m.1) (l : Lif
   have x8 : X.1.allocator = false := by subst hX; simp [hadInstall]
   have x9 : X.1.info = true → X.1.idls = [] := by subst hX; simpa using h.id
   have x10 : X.1.verifier = false := by subst hX; simpa using hver
+  have x11 : X.1.wflag.length = X.1.n := by subst hX; simp [hadInstall, St.n]
   have hg : ∀ w, X.1.writing = some w → w.gen < X.1.gen := by
     intro w hw
     rw [x3] at hw
@@ -281,6 +315,7 @@ theorem handleAllocationDone_winv (m : M) (ex mi : Bool) (h : WInv m.1) (l : Lif
         ({ X.1 with bf := some (List.replicate X.1.n false) }).resetCompletion (List.replicate X.1.n false)
         (by simp) (by subst hX; simp [hadInstall, St.n])
       exact h.of_stale (by simpa using x1) (by simpa using x3) (by simpa using hg) (fun _ => by simpa using x5)
+        (fun _ => by simpa [St.n] using x11)
         (by simpa using x6) (x7.of_peers (by simp)) (bd_of_same L hL1 hL2) (by simp [x8]) (by simpa using x9)
     unfold hadFresh
     dsimp only
@@ -290,7 +325,7 @@ theorem handleAllocationDone_winv (m : M) (ex mi : Bool) (h : WInv m.1) (l : Lif
     · exact hadCheck_winv _ hi
   have ver : WInv (onSt X fun s => { s with verifier := true }).1 := by
     simp only [onSt_fst]
-    exact h.of_stale x1 x3 hg (fun _ => x5) x6 x7 (fun _ hv => by cases hv) (by simp [x8]) x9
+    exact h.of_stale x1 x3 hg (fun _ => x5) (fun _ => x11) x6 x7 (fun _ hv => by cases hv) (by simp [x8]) x9
   dsimp only
   split
   · next b hb =>
@@ -300,6 +335,7 @@ theorem handleAllocationDone_winv (m : M) (ex mi : Bool) (h : WInv m.1) (l : Lif
       simp only [onSt_fst]
       obtain ⟨L, hL1, hL2⟩ := markPaddingPieces_same { X.1 with done := b } b hb rfl
       exact h.of_stale (by simpa using x1) (by simpa using x3) (by simpa using hg) (fun _ => by simpa using x5)
+        (fun _ => by simpa [St.n] using x11)
         (by simpa using x6) (x7.of_peers (by simp)) (bd_of_same L hL1 hL2) (by simp [x8]) (by simpa using x9)
     · split
       · exact fresh
@@ -310,20 +346,21 @@ theorem handleAllocationDone_winv (m : M) (ex mi : Bool) (h : WInv m.1) (l : Lif
 
 theorem allocatorRun_winv (m : M) (h : WInv m.1) (l : Life m.1) (ha : m.1.allocator = true) :
     WInv (allocatorRun m).1 := by
-  unfold allocatorRun
-  dsimp only
+  rw [allocatorRun_eq]
   split
-  · simp only [onSt_fst]
+  · unfold allocFail
+    simp only [onSt_fst]
     have hdl : m.1.dls = [] := by
       cases hdl : m.1.dls with
       | nil => rfl
       | cons a t =>
         have := (h.dl (by rw [hdl]; exact List.cons_ne_nil _ _)).2.1
         rw [ha] at this; cases this
-    exact stop_winv _ _ (h.unloaded rfl rfl rfl (h.al ha) hdl h.id h.q)
+    exact stop_winv _ _ (h.unloaded (by simp) (by simp) (by simp) (by simpa using h.al ha) (by simpa using hdl)
+      (by simpa using h.id) (h.q.of_peers (by simp)))
   · apply handleAllocationDone_winv
-    · simp only [onSt_fst]; exact h.frame (by wframe_eq)
-    · simp only [onSt_fst]
+    · exact h.frame (by wframe_eq)
+    · simp only [allocOkOpen, allocData, onSt_fst]
       refine l.set_files rfl rfl rfl rfl rfl rfl rfl rfl rfl rfl rfl rfl rfl rfl rfl ?_
       intro f hf hp
       simp only [List.getD_eq_getElem?_getD] at hp
@@ -363,7 +400,8 @@ theorem handleVerificationDone_winv (m : M) (h : WInv m.1) (l : Life m.1) (hv : 
       rw [hg] at this
       exact absurd this (Nat.lt_irrefl _)
   have h0 : WInv (hvdInstall m).1 := by
-    refine h.of_stale (by simp) (by simp) (by simpa using hstale) (fun _ => by simpa using hwf) (by simpa using hdl)
+    refine h.of_stale (by simp) (by simp) (by simpa using hstale) (fun _ => by simpa using hwf)
+      (fun _ => by simpa [St.n] using h.wl hl) (by simpa using hdl)
       (h.q.of_peers (by simp)) ?_ (by simpa using h.al) (by simpa using h.id)
     intro _ _ b hb
     have hbf : (hvdInstall m).1.bf = some m.1.diskOK := by
